@@ -130,11 +130,30 @@ def compare(impl_s, model_s):
         return False
 
 
+def pileup_layout(rng):
+    """Two or three agents of a self-overlapping encoding share a cell, an agent of an encoding that
+    may NOT join them stands next to it: one of the sharers leaves (or dies), then the outsider tries
+    to step in while another sharer is still there."""
+    rows, cols = rng.randint(2, 4), rng.randint(3, 4)
+    P = (rng.randrange(rows), rng.randint(1, cols - 2))
+    ov = [[1, [1]], [2, [2]]] if rng.random() < 0.7 else [[1, [1]], [2, [2]], [3, [1, 2, 3]]]
+    ags = [gen_C11.wagent(1, P, HD, rng.choice([None, 2])) for _ in range(rng.choice([2, 2, 3]))]
+    ags.append(gen_C11.wagent(2, (P[0], P[1] - 1), HD, rng.choice([None, 3])))
+    if rng.random() < 0.5:
+        ags.append(gen_C11.wagent(rng.choice([2, 3]) if len(ov) == 3 else 2, (P[0], P[1] + 1)))
+    rng.shuffle(ags)
+    return rows, cols, ov, [1, 2, 3][:len(ov)], ags, P
+
+
 def gen(tier, rng):
     quick = tier != "thorough"
     n_layouts = 700 if quick else 15000
     for _ in range(n_layouts):
-        rows, cols, ov, encs, ags = gen_C11.random_layout(rng, quick)
+        directed = None
+        if rng.random() < 0.12:
+            rows, cols, ov, encs, ags, directed = pileup_layout(rng)
+        else:
+            rows, cols, ov, encs, ags = gen_C11.random_layout(rng, quick)
         for a in ags:
             if rng.random() < 0.6:
                 a[5] = [rng.randint(1, 4)]
@@ -155,6 +174,14 @@ def gen(tier, rng):
             params.append([rg, rng.choice([HD, HD, HD // 2, HD // 4, 1, 3 * HD // 8]),
                            rng.choice([HD, HD, HD, HD // 2, HD - 1]), rng.choice([1, 1, 2, 3])])
         ops = []
+        if directed is not None:
+            sharers = [i for i in live if ags[i][0] == 1 and tuple(ags[i][1]) == directed]
+            outsiders = [i for i in live if ags[i][0] != 1]
+            if sharers and outsiders:
+                lv = rng.choice(sharers)
+                ops.append([0, 0, lv, rng.choice([-1, 1]) if rows > 1 else 0, 0])      # one sharer leaves
+                for o in outsiders:                                                  # outsiders step in
+                    ops.append([0, 0, o, directed[0] - ags[o][1][0], directed[1] - ags[o][1][1]])
         for _ in range(rng.randint(3, 40)):
             i = rng.choice(live)
             if rng.random() < 0.5:
